@@ -203,9 +203,15 @@ def scen_e2e(ch, params, out):
     counts = params.get("counts", [1, 2, 3, 9, 10, 11, 14, 15, 16, 17])
     limits = params.get("limits", [0, 1, 2, 3, 10, 11, 15, 16, 17])
     c, m = ch.choose("count,max_literals", [(c, m) for c in counts for m in limits], shard=True)
-    profile = ch.choose("length_profile", ["short", "one19", "one20", "one21"])
-    specials = ch.choose("special_strings", SPECIAL_SETS)
-    spread = ch.choose("arrangement", ["one_list", "one_per_sample", "two_lists"])
+    spread = ch.choose("arrangement", ["one_list", "one_per_sample", "two_lists", "list_and_joined_singleton"])
+    if spread == "list_and_joined_singleton":      # does not depend on the other selectors: keep them out of the path tree
+        profile, specials = "short", []
+        if c != 3:
+            out.checked += 1
+            return
+    else:
+        profile = ch.choose("length_profile", ["short", "one19", "one20", "one21"])
+        specials = ch.choose("special_strings", SPECIAL_SETS)
     fw = ch.choose("framework", params.get("frameworks", ["base", "pydantic", "sqlmodel", "attrs", "dataclasses"]))
     strs = [f"v{i:02d}" for i in range(c)]
     for i, sp in enumerate(specials[:max(c - 2, 0)] if c > 2 else specials[:c - 1] if c > 1 else []):
@@ -218,6 +224,14 @@ def scen_e2e(ch, params, out):
         elem = True
     elif spread == "two_lists":
         samples = [{"a": strs[: c // 2 + 1]}, {"a": strs[c // 2:] or strs[:1]}]
+        elem = True
+    elif spread == "list_and_joined_singleton":
+        # a list of some strings next to a one-element list holding their comma-joined text (both spellings of the join):
+        # the two lists are different types even if a textual summary of their literal sets coincides
+        base = [x for x in strs if "," not in x][:2] or strs[:1]
+        samples = [{"a": list(base)}, {"a": [",".join(base)]}, {"a": [",".join(reversed(base))]}]
+        strs = list(dict.fromkeys(base + [",".join(base), ",".join(reversed(base))]))
+        c = len(strs)
         elem = True
     else:
         samples = [{"a": s} for s in strs]
